@@ -329,7 +329,8 @@ def run(ctx: Ctx):
     for n in own_nodes(sched):
         if isinstance(n, ast.Assign) and norm(n.targets[0]) == "dep_time" and in_forward(n) == "T":
             if isinstance(n.value, ast.BinOp) and "timedelta" in norm(n.value):
-                m = mono(n.value, lambda e: isinstance(e, ast.Name) and e.id == "gap_hours")
+                m = mono(n.value, lambda e: (isinstance(e, ast.Name) and e.id == "gap_hours") or
+                         (isinstance(e, ast.Call) and (dotted(e.func) or "").endswith("_parse_duration")))
                 base = mono(n.value, lambda e: isinstance(e, ast.Name) and e.id == "dep_time")
                 ok = m == "+" and base == "+"
                 ctx.ob("R04.2", f"{sched.qual}: {norm(n)}", (sched, n), ok,
@@ -343,8 +344,15 @@ def run(ctx: Ctx):
                        "the edge kind no longer selects start (on-start) vs end (finish-to-start) of the predecessor",
                        key="R04.2|TaskScenario.schedule|fwd start/end choice")
     # the cursor starts at the bound
+    from ..order import nearest_resolver
+    cursor_defs = []
+    for c_ in own_nodes(sched):
+        # the definition of the name that reaches `self.currentSlotIdx = <name>` in the forward branch
+        if isinstance(c_, ast.Assign) and norm(c_.targets[0]) == "self.currentSlotIdx" and isinstance(c_.value, ast.Name) and in_forward(c_) == "T":
+            for v_ in nearest_resolver(sched.node, c_)(c_.value):
+                cursor_defs += [d_ for d_ in own_nodes(sched) if isinstance(d_, ast.Assign) and d_.value is v_]
     for n in own_nodes(sched):
-        if isinstance(n, ast.Assign) and norm(n.targets[0]) == "slot_idx" and in_forward(n) == "T":
+        if isinstance(n, ast.Assign) and norm(n.targets[0]) == "slot_idx" and in_forward(n) == "T" and (not cursor_defs or n in cursor_defs):
             ok = "earliest_start" in norm(n.value) and "dateToIdx" in norm(n.value)
             ctx.ob("R04.2", f"{sched.qual}: {norm(n)}", (sched, n), ok,
                    "walk starts in the slot of the dependency bound" if ok else "forward walk does not start at the dependency bound",
